@@ -3,6 +3,7 @@ Spec: spec/EventLoop.tla (scenario generator + abstract loop) over spec/EventLoo
 monitor); trace spec: spec/EventLoopTrace.tla; environment doubles: vf/loops.py."""
 from __future__ import annotations
 
+import concurrent.futures as cf
 import contextlib
 import io
 import json
@@ -11,6 +12,7 @@ from .. import loops, tlc
 
 EXIT_DELAY_MS = 100
 MAXA = 8
+BUSY_MS = 15    # BusyD of EventLoop.tla: a busy start-up period / a slow callback
 
 
 def run_scenario(loop_name, scn, max_waits=400):
@@ -31,11 +33,17 @@ def run_scenario(loop_name, scn, max_waits=400):
                 ad.sync()
 
         def do(beh, kind, me):
-            if beh == "addAlarm":
+            if beh in ("addAlarm", "addAlarm0"):
                 if state["nextid"] <= MAXA:
                     i = state["nextid"]
                     state["nextid"] += 1
-                    reg_alarm(i, 10, "noop")
+                    reg_alarm(i, 0 if beh == "addAlarm0" else 10, "noop")
+            elif beh == "slowAddAlarm0":     # a slow callback (alarms due meanwhile are overdue now) that then asks for a zero-delay alarm
+                ad.slow(BUSY_MS)
+                if state["nextid"] <= MAXA:
+                    i = state["nextid"]
+                    state["nextid"] += 1
+                    reg_alarm(i, 0, "noop")
             elif beh == "addIdle":      # enter_idle() from within a callback
                 if state["nextidle"] <= 3:
                     i = state["nextidle"]
@@ -64,7 +72,7 @@ def run_scenario(loop_name, scn, max_waits=400):
                     ret = loop.remove_enter_idle(state["idle_h"][tgt])
                     env.log(t="remove_idle", id=tgt, ret=bool(ret))
             elif beh == "slow":
-                ad.slow(15)
+                ad.slow(BUSY_MS)
             elif beh == "exit":
                 env.log(t="raise", kind="exit")
                 raise urwid.ExitMainLoop()
@@ -103,6 +111,8 @@ def run_scenario(loop_name, scn, max_waits=400):
 
         for i, a in enumerate(scn["alarms"], 1):
             reg_alarm(i, a["delay"], a["beh"])
+            if scn.get("busy", 0) == i:      # busy start-up before run(): the alarms registered so far may be overdue when the next ones come
+                ad.slow(BUSY_MS)
         reg_alarm(na + 1, scn.get("exit_ms", EXIT_DELAY_MS), "exit")
         for f, w in enumerate(scn["watches"], 1):
             reg_watch(f, w["beh"])
@@ -154,11 +164,11 @@ def scn_from_state(st):
     sc = st["scn"]
     return {"alarms": [{"delay": a["delay"], "beh": a["beh"]} for a in sc["alarms"]],
             "watches": [{"at": w["at"], "beh": w["beh"]} for w in sc["watches"]],
-            "idles": list(sc["idles"]), "fd0": (len(sc["alarms"]) + len(sc["watches"])) % 2 == 0}
+            "idles": list(sc["idles"]), "busy": int(sc["busy"]), "fd0": (len(sc["alarms"]) + len(sc["watches"])) % 2 == 0}
 
 
-ABEH = ["noop", "addAlarm", "addIdle", "removeAlarm", "removeAlarmTwice", "removeWatch", "removeIdle", "slow", "exit", "error"]
-WBEH = ["noop", "addIdle", "removeWatch", "removeSelfWatch", "removeAlarm", "slow", "error"]
+ABEH = ["noop", "addAlarm", "addAlarm0", "slowAddAlarm0", "addIdle", "removeAlarm", "removeAlarmTwice", "removeWatch", "removeIdle", "slow", "exit", "error"]
+WBEH = ["noop", "addAlarm0", "slowAddAlarm0", "addIdle", "removeWatch", "removeSelfWatch", "removeAlarm", "slow", "error"]
 IBEH = ["noop", "removeIdle", "error"]
 
 
@@ -167,7 +177,7 @@ def random_scn(rng):
     return {"alarms": [{"delay": rng.choice([0, 0, 10, 10, 20, 30, 50]), "beh": rng.choice(ABEH + ["noop", "slow"])} for _ in range(na)],
             "watches": [{"at": rng.choice([9999, 0, 0, 10, 15, 25]), "beh": rng.choice(WBEH + ["noop", "exit"])} for _ in range(nf)],
             "idles": [rng.choice(IBEH + ["noop", "noop", "exit", "slow"]) for _ in range(ni)], "fd0": rng.random() < 0.5,
-            "rerun": rng.random() < 0.4}
+            "rerun": rng.random() < 0.4, "busy": rng.choice([0, 0] + list(range(1, na + 1)))}
 
 
 def heap_scns(rng, n):
@@ -183,6 +193,120 @@ def heap_scns(rng, n):
     return out
 
 
+def overdue_scns(rng, n):
+    """Zero-delay alarms registered while an alarm with a positive delay is already overdue (and control cases where it is not quite):
+    the program was busy for BUSY_MS before run() between two registrations, or a callback (alarm or descriptor) took BUSY_MS and then
+    asked for a zero-delay alarm.  The new alarm is due *now*, i.e. after everything that is overdue; a loop that hands zero-delay
+    alarms to a ready queue instead of its timers serves it first.  Other alarms, idle callbacks and removals are mixed in."""
+    out = []
+    for _ in range(n):
+        mode = rng.choice(["startup", "alarm", "watch"])
+        extra = [{"delay": rng.choice([0, 10, 20, 30, 40]), "beh": rng.choice(["noop", "noop", "slow", "addAlarm0", "removeAlarm"])}
+                 for _ in range(rng.randint(0, 2))]
+        sc = {"watches": [], "idles": [rng.choice(["noop", "removeIdle"]) for _ in range(rng.choice([0, 1, 2]))], "fd0": rng.random() < 0.5,
+              "rerun": False, "busy": 0}
+        if mode == "startup":
+            early = [{"delay": rng.choice([5, 10, 15, 20]), "beh": "noop"} for _ in range(rng.randint(1, 2))]
+            late = [{"delay": rng.choice([0, 0, 5]), "beh": rng.choice(["noop", "addAlarm0"])} for _ in range(rng.randint(1, 2))]
+            sc["alarms"] = early + late + extra
+            sc["busy"] = len(early)
+        else:
+            t = rng.choice([0, 10, 20])
+            over = [{"delay": t + rng.choice([0, 5, 10, 15, 20]), "beh": "noop"} for _ in range(rng.randint(1, 2))]
+            if mode == "alarm":
+                sc["alarms"] = [{"delay": t, "beh": "slowAddAlarm0"}] + over + extra
+            else:
+                sc["alarms"] = over + extra
+                sc["watches"] = [{"at": t, "beh": "slowAddAlarm0"}]
+            rng.shuffle(sc["alarms"])
+        out.append(sc)
+    return out
+
+
+def late_idle_scns(rng, n):
+    """Idle callbacks that appear late: the loop starts with no idle callback (or its only one removes itself at the first pass), has
+    been through idle passes with nothing to call, and then a callback calls enter_idle(); after the callbacks that follow, the new
+    idle callback must run before the loop sleeps."""
+    out = []
+    for _ in range(n):
+        t = rng.choice([0, 10, 20])
+        later = [{"delay": t + rng.choice([10, 20, 30]), "beh": rng.choice(["noop", "noop", "slow", "addAlarm0"])} for _ in range(rng.randint(1, 2))]
+        sc = {"alarms": [{"delay": rng.choice([0, t]), "beh": "noop"}] if t else [], "watches": [], "idles": rng.choice([[], [], ["removeIdle"]]),
+              "fd0": rng.random() < 0.5, "rerun": False, "busy": 0}
+        if rng.random() < 0.5:
+            sc["alarms"] += [{"delay": t, "beh": "addIdle"}] + later
+        else:
+            sc["alarms"] += later
+            sc["watches"] = [{"at": t, "beh": "addIdle"}]
+        if rng.random() < 0.4:
+            sc["watches"].append({"at": t + rng.choice([5, 15, 25]), "beh": "noop"})
+        out.append(sc)
+    return out
+
+
+def removed_watch_scns(rng, n):
+    """A watch removed (by an alarm, by another descriptor's callback, by itself) before its descriptor becomes readable (again): the
+    callback must not run any more.  Half of the scenarios present watched descriptor 1 as file descriptor 0 (stdin, what urwid's
+    screens watch) on the loops whose double allows it."""
+    out = []
+    for _ in range(n):
+        at = rng.choice([10, 15, 25])
+        sc = {"alarms": [{"delay": rng.choice([0, 0, 10]) if at > 10 else 0, "beh": "removeWatch"}], "watches": [{"at": at, "beh": rng.choice(["noop", "slow"])}],
+              "idles": ["noop"] * rng.randint(0, 1), "fd0": rng.random() < 0.5, "rerun": False, "busy": 0}
+        if rng.random() < 0.5:      # a second descriptor, readable earlier, whose callback removes the first watch (removeWatch from watch 2 targets watch 1)
+            sc["alarms"][0]["beh"] = rng.choice(["noop", "removeWatch"])
+            sc["watches"].append({"at": rng.choice([0, 0, 10]) if at > 10 else 0, "beh": "removeWatch"})
+        for _ in range(rng.randint(0, 2)):
+            sc["alarms"].append({"delay": rng.choice([0, 10, 20, 30]), "beh": rng.choice(["noop", "slow", "removeWatch"])})
+        out.append(sc)
+    return out
+
+
+def overdue_count(tr):
+    """Vacuity counter (not a verdict): registrations of a zero-delay alarm while an alarm with a positive delay and an EARLIER due time is pending, i.e. overdue."""
+    now, pend, n, running = 0, {}, {"startup": 0, "callback": 0}, False
+    for e in tr["ev"]:
+        t = e["t"]
+        running = running or t in ("wait", "alarm_cb", "watch_cb", "idle_cb")
+        if t == "slow":
+            now += e["d"]
+        elif t == "advance":
+            now = max(now, e["to"])
+        elif t in ("alarm_cb", "watch_cb", "idle_cb"):
+            now = max(now, e["now"])
+            if t == "alarm_cb":
+                pend.pop(e["id"], None)
+        elif t == "remove_alarm":
+            pend.pop(e["id"], None)
+        elif t == "reg_alarm":
+            if e["delay"] == 0 and any(due < now and delay > 0 for due, delay in pend.values()):
+                n["callback" if running else "startup"] += 1
+            pend[e["id"]] = (now + e["delay"], e["delay"])
+    return n
+
+
+def family_counts(tr):
+    """Vacuity counters (not a verdict): enter_idle() from a callback while no idle callback is registered; a watch removed before its
+    descriptor became readable, which then does become readable (on descriptor 0 / another descriptor)."""
+    n = {"idle_registered_late_with_none_active": 0, "watch_removed_then_readable": 0, "watch_removed_then_readable.fd0": 0}
+    active, removed, running = set(), set(), False
+    fd0 = bool(tr["scn"].get("fd0")) and loops.ADAPTERS[tr["loop"]].zero_ok
+    for e in tr["ev"]:
+        t = e["t"]
+        running = running or t in ("wait", "alarm_cb", "watch_cb", "idle_cb")
+        if t == "reg_idle":
+            if running and not active:
+                n["idle_registered_late_with_none_active"] += 1
+            active.add(e["id"])
+        elif t == "remove_idle":
+            active.discard(e["id"])
+        elif t == "remove_watch":
+            removed.add(e["fd"])
+        elif t == "env_readable" and e["fd"] in removed:
+            n["watch_removed_then_readable" + (".fd0" if fd0 and e["fd"] == 1 else "")] += 1
+    return n
+
+
 def _q(xs):
     return "{" + ", ".join(f'"{x}"' if isinstance(x, str) else str(x) for x in xs) + "}"
 
@@ -193,6 +317,7 @@ Ats = {ats}
 ABeh = {abeh}
 WBeh = {wbeh}
 IBeh = {ibeh}
+Busy = {busy}
 SPECIFICATION Spec
 INVARIANT ContractHolds
 INVARIANT Terminates
@@ -229,18 +354,40 @@ def run(chk, loops_to_run=None):
     if quick:
         cfg = MC_CFG.format(na=2, nf=1, ni=2, bad="", delays=_q([0, 10]), ats=_q([9999, 0, 15]),
                             abeh=_q(["noop", "addAlarm", "addIdle", "removeAlarmTwice", "removeWatch", "removeIdle", "slow", "error"]),
-                            wbeh=_q(["noop", "removeSelfWatch", "removeAlarm", "slow", "error"]), ibeh=_q(IBEH))
+                            wbeh=_q(["noop", "removeSelfWatch", "removeAlarm", "slow", "error"]), ibeh=_q(IBEH), busy=_q([0]))
+        # zero-delay alarms against overdue alarms: busy start-up after any alarm, slow callbacks that register a zero-delay alarm
+        cfg0 = MC_CFG.format(na=2, nf=1, ni=1, bad="", delays=_q([0, 10, 20]), ats=_q([0, 10]), abeh=_q(["noop", "addAlarm0", "slowAddAlarm0", "removeAlarm"]),
+                             wbeh=_q(["noop", "slowAddAlarm0"]), ibeh=_q(["noop"]), busy=_q([0, 1, 2]))
     else:
-        cfg = MC_CFG.format(na=2, nf=2, ni=2, bad="", delays=_q([0, 10, 20]), ats=_q([9999, 0, 15]), abeh=_q(ABEH), wbeh=_q(WBEH), ibeh=_q(IBEH))
-    r = tlc.mc("EventLoop", cfg, timeout=3000, heap="12g")
+        zero = ("addAlarm0", "slowAddAlarm0")     # these have their own exhaustive run (cfg0): the two scenario spaces add up instead of multiplying
+        cfg = MC_CFG.format(na=2, nf=2, ni=2, bad="", delays=_q([0, 10, 20]), ats=_q([9999, 0, 15]), abeh=_q([b for b in ABEH if b not in zero]),
+                            wbeh=_q([b for b in WBEH if b not in zero]), ibeh=_q(IBEH), busy=_q([0]))
+        cfg0 = MC_CFG.format(na=3, nf=1, ni=1, bad="", delays=_q([0, 10, 20]), ats=_q([0, 10]),
+                             abeh=_q(["noop", "addAlarm0", "slowAddAlarm0", "removeAlarm"]),
+                             wbeh=_q(["noop", "slowAddAlarm0"]), ibeh=_q(["noop"]), busy=_q([0, 1, 2, 3]))
+    with cf.ThreadPoolExecutor(2) as ex:      # the two exhaustive runs overlap (JVM start dominates on a loaded machine)
+        f0 = ex.submit(tlc.mc, "EventLoop", cfg0, workers=3 if quick else 6, timeout=3000, heap="8g")
+        r = tlc.mc("EventLoop", cfg, workers=6, timeout=3000, heap="12g")
+        r0 = f0.result()
     chk.add_mc("MC_EventLoop_contract_satisfiable", r)
-    if not r.ok:
-        chk.reject("C13.model." + str(r.violated), {"model": "EventLoop"}, {"tlc_trace": r.trace[-5:]})
+    chk.add_mc("MC_EventLoop_zero_delay_vs_overdue_satisfiable", r0)
+    for rr in (r, r0):
+        if not rr.ok:
+            chk.reject("C13.model." + str(rr.violated), {"model": "EventLoop"}, {"tlc_trace": rr.trace[-5:]})
     refuted = {}
-    for bad in ("blockDirty", "alarmOrder", "removedWatch"):
-        cfgb = MC_CFG.format(na=2, nf=2, ni=1, bad=bad, delays=_q([0, 10]), ats=_q([9999, 0]), abeh=_q(["noop", "slow", "removeWatch"]),
-                             wbeh=_q(["noop", "removeWatch", "slow"]), ibeh=_q(["noop"]))
-        rb = tlc.mc("EventLoop", cfgb, timeout=900)
+
+    def refute(bad):
+        if bad == "zeroDelayFirst":
+            cfgb = MC_CFG.format(na=2, nf=1, ni=1, bad=bad, delays=_q([0, 10]), ats=_q([9999, 0]), abeh=_q(["noop", "slowAddAlarm0"]),
+                                 wbeh=_q(["noop", "slowAddAlarm0"]), ibeh=_q(["noop"]), busy=_q([0, 1]))
+        else:
+            cfgb = MC_CFG.format(na=2, nf=2, ni=1, bad=bad, delays=_q([0, 10]), ats=_q([9999, 0]), abeh=_q(["noop", "slow", "removeWatch"]),
+                                 wbeh=_q(["noop", "removeWatch", "slow"]), ibeh=_q(["noop"]), busy=_q([0]))
+        return bad, tlc.mc("EventLoop", cfgb, workers=2, timeout=900)
+
+    with cf.ThreadPoolExecutor(2) as ex:
+        bad_runs = list(ex.map(refute, ("blockDirty", "alarmOrder", "removedWatch", "zeroDelayFirst")))
+    for bad, rb in bad_runs:
         refuted[bad] = rb.violated == "ContractHolds"
         chk.cov["tlc_runs"].append({"run": f"MC_EventLoop_bad_{bad}_must_fail", "violated": rb.violated, "generated": rb.generated})
     chk.cov["contract_refutes_bad_loops"] = refuted
@@ -248,7 +395,8 @@ def run(chk, loops_to_run=None):
         raise tlc.MachineryError(f"the C13 contract no longer refutes a deliberately wrong loop: {refuted}")
 
     # ---- spec -> code: TLC scenarios on every loop -----------------------------------------------------
-    simcfg = MC_CFG.format(na=3, nf=2, ni=2, bad="", delays=_q([0, 10, 20]), ats=_q([9999, 0, 15]), abeh=_q(ABEH), wbeh=_q(WBEH), ibeh=_q(IBEH))
+    simcfg = MC_CFG.format(na=3, nf=2, ni=2, bad="", delays=_q([0, 10, 20]), ats=_q([9999, 0, 15]), abeh=_q(ABEH), wbeh=_q(WBEH), ibeh=_q(IBEH),
+                           busy=_q([0, 0, 1, 2, 3]))
     simcfg = simcfg.replace("SPECIFICATION Spec", "SPECIFICATION SimSpec")
     behs = tlc.simulate("EventLoop", simcfg, num=60 if quick else 1500, depth=3, seed=chk.seed, jobs=2 if quick else 8, timeout=1500)
     scns = [scn_from_state(b[1]) for b in behs if len(b) > 1]
@@ -264,16 +412,31 @@ def run(chk, loops_to_run=None):
             if name in ("select", "zmq") or k % 10 == 0:      # these two keep their own heap; the others delegate to their library's timers
                 traces.append(run_scenario(name, sc))
     chk.cov["heap_scenarios"] = len(hs)
+    ods = overdue_scns(rng, 40 if quick else 1500)
+    for sc in ods:
+        for name in names:
+            traces.append(run_scenario(name, sc))
+    chk.cov["overdue_scenarios"] = len(ods)
+    lis, rws = late_idle_scns(rng, 20 if quick else 600), removed_watch_scns(rng, 20 if quick else 600)
+    for sc in lis + rws:
+        for name in names:
+            traces.append(run_scenario(name, sc))
+    chk.cov["late_idle_scenarios"], chk.cov["removed_watch_scenarios"] = len(lis), len(rws)
     res = tlc.validate("EventLoopTrace", traces, batch_events=20000, timeout=1500)
     chk.add_tv("TV_EventLoopTrace", res)
     _handle(chk, traces, res, "c13")
     kinds = {}
     nontriv = set()
     for t in traces:
-        inside = False
         for e in t["ev"]:
             k = f"{t['loop']}.{e['t']}"
             kinds[k] = kinds.get(k, 0) + 1
+        for where, cnt in overdue_count(t).items():
+            k = f"{t['loop']}.zero_delay_alarm_while_overdue.{where}"
+            kinds[k] = kinds.get(k, 0) + cnt
+        for fam, cnt in family_counts(t).items():
+            k = f"{t['loop']}.{fam}"
+            kinds[k] = kinds.get(k, 0) + cnt
         nontriv.add(json.dumps(t["scn"], sort_keys=True))
     chk.cov["clause_counts"] = kinds
     chk.cov["distinct_nontrivial"] = len(nontriv)
@@ -282,7 +445,11 @@ def run(chk, loops_to_run=None):
                        "distinct = distinct scenarios")
     chk.cov["bounds"] = {"tlc_scenarios": len(behs), "random_scenarios": n_rand, "loops": names}
     for name in names:
-        for v in ("alarm_cb", "watch_cb", "idle_cb", "wait", "remove_alarm"):
+        for v in ("alarm_cb", "watch_cb", "idle_cb", "wait", "remove_alarm", "zero_delay_alarm_while_overdue.startup",
+                  "zero_delay_alarm_while_overdue.callback", "idle_registered_late_with_none_active", "watch_removed_then_readable",
+                  "watch_removed_then_readable.fd0"):
+            if v.endswith(".fd0") and not loops.ADAPTERS[name].zero_ok:
+                continue
             if not kinds.get(f"{name}.{v}"):
                 chk.vacuity.append(f"driver.{name}.{v}")
     chk.sample({"loop": traces[0]["loop"], "scn": traces[0]["scn"], "events": traces[0]["ev"][:40]})
